@@ -70,7 +70,7 @@ def specs_for(prop, seed, n, tier):
     return specs
 
 
-SPEC_BUILDERS = {}
+SPEC_BUILDERS = {"C16": lambda seed, n, tier: _c16_specs(seed, n, tier)}
 
 
 # ---------------------------------------------------------------------------
@@ -89,11 +89,29 @@ PROFILES.update({
                    sim_fixed_seed=True, p_nodelay_false=0.03)), ],
 })
 FRESH = {"C11": {"hashseed": "5"}}
+PROFILES["C16"] = [
+    (6, _p(world="mem", kinds=[k for k in MF if k != "moasha"] + ["fifo_random", "fifo_grid", "hb_stopping", "hb_promotion"],
+           p_fault_free=0.5, fault_kinds=["crash"], p_nodelay_false=0.0, max_trials=8, p_latency=0.3, p_tiny_space=0.3, p_pte=0.6,
+           p_early_removal=0.0)),
+    (1, _p(world="mem", kinds=["fifo_bo", "hb_promotion_bo", "hb_stopping_bo"], p_fault_free=0.7, fault_kinds=["crash"], p_nodelay_false=0.0,
+           max_trials=6)),
+]
+DRIVERS["C16"] = "c16"
+
+
+def _c16_specs(seed, n, tier):
+    from dst.drivers import c16
+
+    return c16.build_specs(seed, n, tier)
+
 
 BUDGET = {
     # property: (quick_n, quick_budget_s, thorough_n, thorough_budget_s)
     "default": (2500, 100, 60000, 1200),
     "C14": (700, 110, 15000, 1500),
+    "C16": (14, 150, 400, 1800),   # number of *scenarios*; each is expanded into H+1 restart points x modes
+    "C11": (1500, 150, 40000, 1500),
+    "C15": (2000, 120, 60000, 1200),
 }
 
 
